@@ -85,11 +85,14 @@ def coq_files():
     return sorted(fs)
 
 
-def build(targets, timeout=1500, clean=False):
-    """make the given .vo targets (paths relative to coq/).  Returns (ok, log)."""
+def build(targets, timeout=1500, clean=False, stale_tables_ok=False):
+    """make the given .vo targets (paths relative to coq/).  Returns (ok, log).
+    stale_tables_ok: when a translator refuses the current source (fail-closed), keep the tables it generated last (those of the
+    tree on which it still worked) and build with them — used only to keep the SEARCH for a failing input alive after the obligation
+    "the source still has the shape the model is generated from" has already been recorded as broken."""
     with Lock():
         ok, msg = regenerate()
-        if not ok:
+        if not ok and not stale_tables_ok:
             return False, msg
         files = coq_files()
         listing = '\n'.join(files)
@@ -382,7 +385,9 @@ def proof_obligations(run, props_file, module, targets, extra_files=()):
         # the correspondence layer may still build (Model/, Spec/, Corr/ contain no proofs): try it alone, so that the
         # search for a concrete failing input can run even though a proof obligation broke
         corr = [t for t in targets if '/Corr/' in t]
-        run.extra['corr_built_after_proof_failure'] = bool(corr) and build(corr)[0]
+        run.extra['corr_built_after_proof_failure'] = bool(corr) and build(corr, stale_tables_ok=True)[0]
+        if 'translator' in log and 'failed' in log:
+            run.extra['model_tables'] = 'STALE: a translator refused the current source; the search runs against the tables of the last tree it accepted'
         m = re.search(r'File "([^"]+)", line (\d+).*?\n(Error:.*?)(?:\n\n|\Z)', log, flags=re.S)
         what = ('Coq proof obligation failed: ' if run.extra.get('corr_built_after_proof_failure') else 'Coq build failed: ') + (('%s:%s %s' % (m.group(1), m.group(2), m.group(3)[:600])) if m else log[-1500:])
         run.broken.append(what)
